@@ -10,6 +10,10 @@
 (* primitive moves a script has -- index a held table, take the metatable  *)
 (* of a held value -- over the recorded graph: `held` only grows, so the   *)
 (* fixed point TLC reaches is the set of values any script can ever hold.  *)
+(* A third root is what a script gets by CALLING what it holds: a chunk    *)
+(* compiled by `load` without an explicit environment runs in the          *)
+(* interpreter's global table ("@loadenv"), which need not be the table    *)
+(* the script itself runs in; its keys count as globals too.               *)
 (* Policy per mode (contract):                                             *)
 (*   sandbox (unset, "sandboxed", any other value): globals limited to the *)
 (*     base names minus dofile/loadfile/require plus coroutine, table,     *)
@@ -72,7 +76,8 @@ AllowedClasses == CASE Policy = "sandbox" -> {"Pure", "Out", "Env"}
 \* capabilities that must not WORK (exercised by the probe), per policy
 MustNotWork == CASE Policy = "sandbox" -> {"dofile", "loadfile", "require", "io.open", "io.lines", "io.popen", "os.getenv",
                                            "os.execute", "os.remove", "package.loadlib", "package.cpath_searcher",
-                                           "debug.getregistry", "debug.getinfo", "coroutine-io", "gmt-string-index-io"}
+                                           "debug.getregistry", "debug.getinfo", "coroutine-io", "gmt-string-index-io",
+                                           "load-loadfile", "load-dofile", "load-io", "load-os", "load-require"}
                  [] Policy = "safe"    -> {"package.loadlib", "package.cpath_searcher", "debug.getregistry", "debug.getinfo",
                                            "gmt-string-index-io"}
                  [] Policy = "unsafe"  -> {}
